@@ -625,6 +625,8 @@ WORLD_RUN = [
 ]
 WORLD_RUN_TRY = ('self.loop.run_until_complete(scheduler.run(self, until, rt_factor, rt_strict, lazy_stepping))', 'success = True')
 WORLD_RUN_FINALLY = ['self.shutdown()', 'if self._debug:\n    dbg.disable()']
+WORLD_SHUTDOWN = ('if not self.loop.is_closed():\n    errors: List[Exception] = []\n    for sim in self.sims.values():\n        try:\n            self.loop.run_until_complete(sim.stop())\n'
+                  '        except Exception as e:\n            errors.append(e)\n    self.loop.stop()\n    self.loop.run_forever()\n    self.loop.close()\n    if errors:\n        raise errors[0]')
 
 
 def run_skeletons(fn_run, sc_tree):
@@ -652,6 +654,8 @@ def run_skeletons(fn_run, sc_tree):
         if ast.unparse(h.type) not in ('KeyboardInterrupt', 'RemoteException') or any(not ast.unparse(x).startswith('logger.') for x in h.body): bail(h, 'World.run: exception handler')
     fin = [ast.unparse(st) for st in tr.finalbody if not noise(st) and not ast.unparse(st).startswith('if success:')]
     if fin != WORLD_RUN_FINALLY: bail(tr, 'World.run: clean-up')
+    sh = [n for n in cls[0].body if isinstance(n, ast.FunctionDef) and n.name == 'shutdown']
+    if len(sh) != 1 or '\n'.join(ast.unparse(st) for st in strip_doc(sh[0].body)) != WORLD_SHUTDOWN: bail(sh[0] if sh else f, 'World.shutdown differs from the text the model assumes')
     return "(* scheduler.run and World.run: compared with the skeleton the model assumes (harness/py2coq_sched.py run_skeletons); nothing is emitted *)\n"
 
 
